@@ -22,6 +22,22 @@ Definition qlpc_error_buffer (stale : list Z) (q : qparams) (signal : list Z) : 
   do e <- lpc_errors q signal;
   Ok (overwrite_prefix e buf).
 
+(* ---------------- mid/side frame buffer (coding.rs try_stereo_coding + source.rs FrameBuf) ---------------- *)
+(* FrameBuf { samples, size, filled_size }: channel ch lives at samples[ch*size .. ch*size + filled).  The thread-local
+   stereo buffer is resized (Vec::resize keeps old contents; the channel count is samples.len() / old size), then
+   fill_stereo_with_iter writes the (mid, side) pairs over the heads of the two halves and sets filled_size. *)
+Record fbuf := mkFBuf { fbs_samples : list Z; fbs_size : nat; fbs_filled : nat }.
+Definition fbs_channels (b : fbuf) : nat := length (fbs_samples b) / fbs_size b.
+Definition fbs_resize (n : nat) (b : fbuf) : fbuf :=
+  mkFBuf (vresize (n * fbs_channels b) 0%Z (fbs_samples b)) n (fbs_filled b).
+Definition fbs_fill_stereo (pairs : list (Z * Z)) (b : fbuf) : fbuf :=
+  let m := firstn (fbs_size b) (fbs_samples b) in
+  let s := skipn (fbs_size b) (fbs_samples b) in
+  let k := Nat.min (length pairs) (Nat.min (length m) (length s)) in       (* iter.take(size).zip(m.zip(s)) *)
+  mkFBuf (overwrite_prefix (map fst (firstn k pairs)) m ++ overwrite_prefix (map snd (firstn k pairs)) s) (fbs_size b) k.
+Definition fbs_channel (b : fbuf) (ch : nat) : list Z :=
+  firstn (fbs_filled b) (skipn (ch * fbs_size b) (fbs_samples b)).
+
 (* ---------------- Rice parameter finder ---------------- *)
 Record finder := mkFinder { fd_errors : list N; fd_ps : list N; fd_min_ps : list N }.
 
